@@ -480,11 +480,14 @@ class Envelope:
 
         # Handle partial uncombined measurement
         if len(states) == 1 and self.state is None:
+            # Only the given state is measured, as in the combined case
             if isinstance(states[0], Fock):
-                outcome = self.fock.measure_POVM(operators, destructive=destructive)
+                outcome = self.fock.measure_POVM(
+                    operators, destructive=destructive, partial=True
+                )
             elif isinstance(states[0], Polarization):
                 outcome = self.polarization.measure_POVM(
-                    operators, destructive=destructive
+                    operators, destructive=destructive, partial=True
                 )
             return outcome
 
